@@ -1,6 +1,6 @@
 """C18 - drf cp / mv / ln transfer exactly the listed set.
 
-E1: TLC exhausts every sequence of up to three cp / mv / ln commands (option sets, windows, channel lists, two destinations)
+E1: TLC exhausts every sequence of up to three (thorough: four) cp / mv / ln commands (option sets, windows, channel lists, two destinations)
     over a two-channel abstract tree with the transferred set given by the reference listing of the present source: nothing
     is ever lost, the source changes only by mv and by exactly the transferred set, destinations grow by exactly that set,
     tmp./stray files never move, a moved set is gone for the same listing; witnesses show each command, a partial window, a
@@ -25,7 +25,7 @@ WITNESSES = ("W_NeverEmptiesAChannel", "W_NeverPartialWindow", "W_NeverForwardFi
 
 
 def e1(ctx):
-    ctx.model_check("MCTransfer", "MCTransfer.cfg", coverage=False, timeout=900)
+    ctx.model_check("MCTransfer", "MCTransfer.cfg" if ctx.quick else "MCTransfer_thorough.cfg", coverage=False, timeout=1500)
     ctx.model_check("MCTransfer", "MCTransfer_guard.cfg", coverage=False, timeout=900, tag="guard")
     # (-coverage does not terminate on modules that use Listing.tla: reachability of the actions is shown by witnesses)
     ctx.model_check("MCTransfer", "MCTransfer_witnesses.cfg", expect_violated=WITNESSES, coverage=False, extra=["-continue"],
@@ -173,7 +173,8 @@ def run(ctx):
     ctx.sample(dict(name=scen[0]["name"], desc=scen[0]["desc"], names=scen[0]["names"], events=scen[0]["events"][:2]))
     ctx.sample(dict(name=scen[-1]["name"], desc=scen[-1]["desc"], names=scen[-1]["names"], events=scen[-1]["events"][:3]))
     verdicts = ctx.validate("TransferTrace", "TransferTrace.cfg", scen, label="transfer", relevant=lambda c: c.startswith("C18-"))
-    selfcheck(ctx, "TransferTrace", "TransferTrace.cfg", corrupted(scen, verdicts), need=6)
+    if not ctx.violations:   # never let the self-check mask a violation
+        selfcheck(ctx, "TransferTrace", "TransferTrace.cfg", corrupted(scen, verdicts), need=6)
 
 
 def replay(ctx, path):
